@@ -46,6 +46,38 @@ def coq_sources():
     return sorted(glob.glob(os.path.join(COQ, "*.v")) + glob.glob(os.path.join(COQ, "*", "*.v")))
 
 
+def strip_coq_comments(text):
+    """the text with every (nested, possibly multi-line) comment blanked out, line structure kept; string literals are
+    respected ("(*" inside a string opens no comment)"""
+    out, i, n, depth, in_str = [], 0, len(text), 0, False
+    while i < n:
+        c = text[i]
+        if in_str:
+            out.append(c if depth == 0 else (c if c == "\n" else " "))
+            if c == '"':
+                in_str = False
+            i += 1
+        elif text.startswith("(*", i):
+            depth += 1
+            out.append("  ")
+            i += 2
+        elif depth > 0 and text.startswith("*)", i):
+            depth -= 1
+            out.append("  ")
+            i += 2
+        elif depth > 0:
+            out.append(c if c == "\n" else " ")
+            if c == '"':
+                in_str = True
+            i += 1
+        else:
+            out.append(c)
+            if c == '"':
+                in_str = True
+            i += 1
+    return "".join(out)
+
+
 def grep_gate():
     """No admitted proofs, declared axioms or disabled kernel checks anywhere in the development.
     Section-local Variable/Hypothesis/Context are allowed only inside a Section (checked crudely:
@@ -53,8 +85,9 @@ def grep_gate():
     bad = []
     for f in coq_sources():
         depth = 0
-        for i, line in enumerate(open(f, encoding="utf-8"), 1):
-            code = re.sub(r"\(\*.*?\*\)", "", line)
+        text = open(f, encoding="utf-8").read()
+        lines = text.split("\n")
+        for i, (line, code) in enumerate(zip(lines, strip_coq_comments(text).split("\n")), 1):
             if re.match(r"\s*Section\b", code):
                 depth += 1
             if re.match(r"\s*End\b", code) and depth > 0:
